@@ -592,7 +592,7 @@ out = dict(min_eig=float(w.min()), max_eig=float(w.max()), E1=float(s.E1), S1=fl
 
 
 # ---------------------------------------------------------------------------------------------------------------- BladeStiff2D
-def check_bladestiff2d(led, only=None):
+def check_bladestiff2d(led, only=None, base_definition=True):
     """BladeStiff2D: base on the skin's own amplitudes (block at 0), flange plate at (row0, col0), the three penalty blocks
     skin-skin at (0, 0), skin-flange at (0, col0), flange-flange at (row0, col0), all with one pair of penalty constants."""
     for meth in ('__init__', '_rebuild', 'calc_k0', 'calc_kG0', 'calc_kM'):
@@ -689,7 +689,7 @@ def check_bladestiff2d(led, only=None):
                     probs.append('a contribution is scaled')
                 report(led, '%s[%s]' % (BF2 + 'calc_' + which, tag), BF2 + 'calc_' + which, probs)
             probs = []
-            if with_base:
+            if with_base and base_definition:
                 tsk1, tsk2, tb = real('tskin_skin1'), real('tskin_skin2'), real('tb')
                 h = tsk1 * Fraction(1, 2) + tsk2 * Fraction(1, 2)
                 if not peq(base.attrs.get('offset'), -(h * Fraction(1, 2) + tb * Fraction(1, 2))):
